@@ -31,6 +31,7 @@ def random_cfg(rng, tier, **force):
         "mapproj": rng.choice([None, "UTM", "UPS", "LCC", "MER"]),
         "n_fileptr": rng.randint(0, 9),
         "blank_prob": rng.choice([0.0, 0.0, 0.2, 0.7]),
+        "vary_line_constants": rng.random() < 0.35,
     }
     cfg.update(force)
     return cfg
